@@ -154,11 +154,11 @@ class Config:
         self.ledger = ledger
 
     def name(self):
-        return "O%d%s%s%s" % (self.opt, "" if self.module_link else "-nomod", "" if self.listdefs_link else "-nolist", "-asan" if self.asan else "")
+        return "O%d%s%s%s" % (self.opt, "" if self.module_link else "-nomod", "" if self.listdefs_link else "-nolist", "-asan" if self.asan else "") + ("-ledger" if self.ledger else "")
 
 
 class RunResult:
-    __slots__ = ("stage", "stdout", "stderr", "exit", "compile_out", "cls", "timeout")
+    __slots__ = ("stage", "stdout", "stderr", "exit", "compile_out", "cls", "timeout", "ledger")
 
     def __init__(self):
         self.stage = "run"
@@ -168,6 +168,7 @@ class RunResult:
         self.compile_out = ""
         self.cls = ""
         self.timeout = False
+        self.ledger = None
 
     def classify(self):
         if self.stage == "compile":
@@ -231,6 +232,8 @@ def compile_run(ddp, files, cfg=None, stdin="", timeout=10, main="main.ddp", ext
         libdir = os.path.join(ddp, "lib_asan" if cfg.asan else "lib")
         exe = os.path.join(workdir, "prog")
         link = ["gcc", "-o", exe, obj]
+        if cfg.ledger:
+            link += ["-Wl,--wrap=ddp_reallocate", os.path.join(CACHE, "bin", "ledger.o")]
         for c in (extra_c or []):
             link += [os.path.join(workdir, c)]
         link += ["-I" + os.path.join(ddp, "include")]
@@ -239,8 +242,6 @@ def compile_run(ddp, files, cfg=None, stdin="", timeout=10, main="main.ddp", ext
         link += ["-L" + libdir, "-lddpstdlib", "-lddpruntime", "-lm", os.path.join(libdir, "main.o")]
         if cfg.asan:
             link += ["-fsanitize=address,undefined"]
-        if cfg.ledger:
-            link += ["-Wl,--wrap=ddp_reallocate", os.path.join(CACHE, "bin", "ledger.o")]
         p = run(link, cwd=workdir, timeout=120)
         if p.returncode != 0:
             r.stage = "link"
@@ -250,6 +251,8 @@ def compile_run(ddp, files, cfg=None, stdin="", timeout=10, main="main.ddp", ext
         if cfg.asan:
             e["ASAN_OPTIONS"] = "detect_leaks=1:abort_on_error=0:exitcode=99"
             e["UBSAN_OPTIONS"] = "print_stacktrace=0"
+        if cfg.ledger:
+            e["DDP_LEDGER"] = os.path.join(workdir, "ledger.txt")
         try:
             pr = subprocess.run([exe], cwd=workdir, env=e, input=stdin.encode(), stdout=subprocess.PIPE, stderr=subprocess.PIPE, timeout=timeout)
             r.stdout = pr.stdout.decode("utf-8", "replace")
@@ -259,11 +262,34 @@ def compile_run(ddp, files, cfg=None, stdin="", timeout=10, main="main.ddp", ext
             r.timeout = True
             r.stdout = (ex.stdout or b"").decode("utf-8", "replace")
             r.stderr = (ex.stderr or b"").decode("utf-8", "replace")
+        _read_ledger(cfg, workdir, r)
         r.classify()
         return r
     finally:
         if own and not keep:
             shutil.rmtree(workdir, ignore_errors=True)
+
+
+def _read_ledger(cfg, workdir, r):
+    if not cfg.ledger:
+        return
+    try:
+        with open(os.path.join(workdir, "ledger.txt")) as f:
+            r.ledger = f.read(8 << 20)
+    except OSError:
+        r.ledger = ""
+
+
+def build_ledger():
+    """the C ledger (rtharness/ledger.c) as an object linked with --wrap=ddp_reallocate"""
+    src = os.path.join(VERIF, "rtharness", "ledger.c")
+    out = os.path.join(CACHE, "bin", "ledger.o")
+    os.makedirs(os.path.dirname(out), exist_ok=True)
+    if not os.path.exists(out) or os.path.getmtime(out) < os.path.getmtime(src):
+        p = run(["gcc", "-O1", "-c", "-o", out, src], timeout=120)
+        if p.returncode != 0:
+            raise RuntimeError("ledger build failed: " + p.stderr)
+    return out
 
 
 def _link_run(ddp, workdir, cfg, r, stdin="", timeout=10, extra_c=None, objs=None):
@@ -274,6 +300,8 @@ def _link_run(ddp, workdir, cfg, r, stdin="", timeout=10, extra_c=None, objs=Non
     libdir = os.path.join(ddp, "lib_asan" if cfg.asan else "lib")
     exe = os.path.join(workdir, "prog")
     link = ["gcc", "-o", exe] + (list(objs) if objs else [obj])
+    if cfg.ledger:
+        link += ["-Wl,--wrap=ddp_reallocate", os.path.join(CACHE, "bin", "ledger.o")]
     for c in (extra_c or []):
         link += [os.path.join(workdir, c)]
     link += ["-I" + os.path.join(ddp, "include")]
@@ -282,6 +310,8 @@ def _link_run(ddp, workdir, cfg, r, stdin="", timeout=10, extra_c=None, objs=Non
     link += ["-L" + libdir, "-lddpstdlib", "-lddpruntime", "-lm", os.path.join(libdir, "main.o")]
     if cfg.asan:
         link += ["-fsanitize=address,undefined"]
+    if cfg.ledger:
+        e["DDP_LEDGER"] = os.path.join(workdir, "ledger.txt")
     p = run(link, cwd=workdir, timeout=120)
     if p.returncode != 0:
         r.stage = "link"
@@ -300,6 +330,7 @@ def _link_run(ddp, workdir, cfg, r, stdin="", timeout=10, extra_c=None, objs=Non
         r.timeout = True
         r.stdout = (ex.stdout or b"").decode("utf-8", "replace")
         r.stderr = (ex.stderr or b"").decode("utf-8", "replace")
+    _read_ledger(cfg, workdir, r)
     r.classify()
     return r
 
